@@ -44,6 +44,25 @@ class Ctx:
         self._copied = False
 
     # ---------------------------------------------------------------- scratch copy
+    def add_shim(self, files):
+        """Copy the deterministic-scheduler shim into the scratch copy and redirect the imports
+        "sync/atomic", "runtime" (and "sync" when the file is in SYNC_FILES) of the given files to it."""
+        dst = os.path.join(self.golib, "verifshim")
+        if not os.path.isdir(dst):
+            shutil.copytree(os.path.join(VERIF, "harness", "shim"), dst)
+        for f in files:
+            p = os.path.join(self.golib, f)
+            if not os.path.exists(p):
+                raise Inconclusive("file %s to be instrumented no longer exists" % f)
+            src = open(p).read()
+            src2 = src.replace('"sync/atomic"', '"github.com/welllog/golib/verifshim/atomic"')
+            src2 = re.sub(r'(?m)^(\s*)"runtime"$', r'\1"github.com/welllog/golib/verifshim/runtime"', src2)
+            src2 = re.sub(r'(?m)^import "runtime"$', 'import "github.com/welllog/golib/verifshim/runtime"', src2)
+            if f in getattr(self, "sync_files", ()):
+                src2 = re.sub(r'(?m)^(\s*)"sync"$', r'\1"github.com/welllog/golib/verifshim/sync"', src2)
+                src2 = re.sub(r'(?m)^import "sync"$', 'import "github.com/welllog/golib/verifshim/sync"', src2)
+            open(p, "w").write(src2)
+
     def copy_repo(self, overlays=()):
         """rsync /repo's working tree (no .git) into the scratch dir, add the harness module and
         the add-only export files for the named packages."""
@@ -360,3 +379,145 @@ def generic_replay(ctx, rp):
     log("replay: the abstract specification REJECTS event %s of %d" % (line, n))
     log("VIOLATION property=%s replay=%s" % (rp.get("property", ctx.pid), os.environ.get("VERIF_REPLAY_PATH", "(same file)")))
     return 1
+
+
+# -------------------------------------------------------------------- concurrent components (E3 / E4)
+def split_histories(path):
+    """Yield lists of lines, one per history (starting at a reset event)."""
+    cur = []
+    with open(path) as f:
+        for line in f:
+            if line.startswith('{"cap"') or '"ev":"reset"' in line:
+                if cur:
+                    yield cur
+                cur = []
+            cur.append(line)
+    if cur:
+        yield cur
+
+
+def validate_hist(ctx, specdir, module, cfg, histfile, tag, max_events=None, seed=0):
+    """Validate concatenated call histories with the abstract history spec (TLC searches the
+    linearization points). Returns (accepted, failing history as list of events or None, n_hist, n_events)."""
+    import random
+    hs = list(split_histories(histfile))
+    if max_events is not None:
+        total = sum(len(h) for h in hs)
+        if total > max_events:
+            rnd = random.Random(seed)
+            rnd.shuffle(hs)
+            keep, acc = [], 0
+            for h in hs:
+                if acc + len(h) > max_events:
+                    break
+                keep.append(h)
+                acc += len(h)
+            hs = keep
+    if not hs:
+        return True, None, 0, 0
+    tf = os.path.join(ctx.out, tag + "_val.ndjson")
+    with open(tf, "w") as f:
+        for h in hs:
+            f.writelines(h)
+    n = sum(len(h) for h in hs)
+    r = ctx.tlc(specdir, module, cfg, workers=1, timeout=1800, extra_files=[(tf, "trace.ndjson")], tag=tag)
+    m = re.findall(r'"HIGHWATER", (\d+), (\d+)', r["tail"])
+    if not m:
+        raise Inconclusive("history validation produced no verdict (%s):\n%s" % (tag, r["tail"]))
+    hw, ln = int(m[-1][0]), int(m[-1][1])
+    other = [e for e in r["errors"] if "Postcondition" not in e]
+    if other:
+        raise Inconclusive("TLC failed while validating histories (%s):\n%s" % (tag, r["tail"]))
+    ctx.cov["tlc_runs"].append({"module": module, "cfg": cfg, "trace_lines": n, "accepted": hw == ln + 1, "states": r["distinct"], "wall_s": r["wall_s"]})
+    if hw == ln + 1:
+        ctx.cov["events_validated"] += n
+        return True, None, len(hs), n
+    # locate the history containing event hw
+    acc = 0
+    for h in hs:
+        if acc + len(h) >= hw:
+            evs = [json.loads(x) for x in h]
+            return False, {"history": evs, "failing_event_index": hw - acc - 1, "failing_event": evs[hw - acc - 1]}, len(hs), n
+        acc += len(h)
+    return False, {"history": [], "failing_event_index": -1}, len(hs), n
+
+
+def conc_component(ctx, comp, specdir, mcmod, emit_cfg, gocmd, overlays, shim_files, hist_spec=("FifoHist", "FifoHist", "Hist.cfg"),
+                   walk_mode="probe", sample_n=300, real_n=300, hist_budget=150000, extra_mc=(), key_prefix=None, maxlen=60,
+                   explore_budget=3000):
+    """E3 (deterministic scheduler): every edge of the step-level TLC graph replayed on the real code;
+    divergences explored and judged by the abstract history spec; sampled schedules; E4 real
+    goroutines under the race detector."""
+    kp = key_prefix or comp
+    hs_dir, hs_mod, hs_cfg = hist_spec
+    for (mod, cfg) in extra_mc:
+        ctx.model_check(specdir, mod, cfg)
+    r = ctx.model_check(specdir, mcmod, emit_cfg, emit=True, tag=comp + "_emit", timeout=1800)
+    ctx.copy_repo(overlays)
+    ctx.add_shim(shim_files)
+    binp = ctx.go_build(gocmd)
+    outd = os.path.join(ctx.out, comp)
+    os.makedirs(outd, exist_ok=True)
+    # ---- model -> code
+    ctx.run([binp, "walk", "-edges", r["out"], "-out", outd, "-mode", walk_mode, "-seed", str(ctx.seed), "-traceevery", "1000000",
+             "-maxlen", str(maxlen), "-maxsusp", "3"], timeout=3000)
+    ws = read_json(os.path.join(outd, "walk_stats.json"))
+    log("walk %s: nodes=%d edges=%d covered=%d paths=%d steps=%d drift=%d suspects=%d whitebox=%s" % (
+        comp, ws["nodes"], ws["edges_total"], ws["edges_covered"], ws["paths"], ws["steps"], ws["drift"], len(ws["suspects"]), ws["whitebox"]))
+    ctx.cov["edges_replayed"] += ws["edges_covered"]
+    ctx.cov["engines"].append({"engine": "E3 detsched replay of TLC edges", "component": comp, "nodes": ws["nodes"], "edges_total": ws["edges_total"],
+                               "edges_covered": ws["edges_covered"], "paths": ws["paths"], "steps": ws["steps"], "whitebox": ws["whitebox"]})
+    ctx.cov["samples"] += ws["samples"][:1]
+    def judge(histfile, tag, what, n_label):
+        ok, bad, nh, nev = validate_hist(ctx, hs_dir, hs_mod, hs_cfg, histfile, tag, max_events=hist_budget, seed=ctx.seed)
+        log("TLC history validation %s %s: %d histories, %d events, %s" % (comp, what, nh, nev, "accepted" if ok else "REJECTED"))
+        if ok:
+            ctx.cov["traces_validated_against_impl"] += nh
+        else:
+            fe = bad.get("failing_event", {})
+            ctx.violation("%s (%s): the abstract FIFO history spec rejects event %d: %s" % (comp, what, bad["failing_event_index"], json.dumps(fe)[:300]),
+                          dict(bad, component=comp + "Hist", how=what), key="%s/hist/%s/%s" % (kp, fe.get("ev"), fe.get("op", "")))
+        return ok
+    for i, sp in enumerate(ws["suspects"]):
+        rp = read_json(sp)
+        mm = rp["mismatch"]
+        if mm["kind"] in ("panic", "hang"):
+            ctx.violation("%s: real code %s under schedule: %s" % (comp, mm["kind"], mm["actual"]), rp, key="%s/%s" % (kp, mm["kind"]))
+            continue
+        exd = os.path.join(outd, "explore%d" % i)
+        os.makedirs(exd, exist_ok=True)
+        ctx.run([binp, "explore", "-file", sp, "-out", exd, "-budget", str(explore_budget), "-maxlen", "14"], timeout=1200)
+        es = read_json(os.path.join(exd, "explore_stats.json"))
+        ctx.cov["engines"].append({"engine": "E3 explore from divergence", "component": comp, "executions": es["executions"], "mismatch": mm})
+        ok = judge(os.path.join(exd, "explore_hist.ndjson"), comp + "_explore%d" % i, "continuations of a schedule on which the code left the Impl spec", es["histories"])
+        if ok:
+            ctx.drift.append("%s: code differs from the step-level Impl spec (%s) but %d explored continuations satisfy the abstract spec" % (comp, json.dumps(mm)[:200], es["executions"]))
+        else:
+            break
+    if ws["drift"]:
+        ctx.drift.append("%s: %d paths with structural drift, e.g. %s" % (comp, ws["drift"], (ws["drift_samples"] or [""])[0][:300]))
+    judge(os.path.join(outd, "walk_hist.ndjson"), comp + "_walkhist", "histories of the replayed TLC paths", 0)
+    # ---- code -> model: sampled schedules
+    ctx.run([binp, "sample", "-out", outd, "-n", str(sample_n), "-seed", str(ctx.seed)], timeout=1800)
+    ss = read_json(os.path.join(outd, "sample_stats.json"))
+    ctx.cov["engines"].append({"engine": "E3 sampled schedules", "component": comp, "histories": ss["histories"], "steps": ss["steps"]})
+    ctx.cov["samples"] += ss["samples"][:1]
+    judge(os.path.join(outd, "sample_hist.ndjson"), comp + "_sample", "sampled schedules", ss["histories"])
+    # ---- E4: real goroutines, race detector
+    rbin = ctx.go_build(gocmd, name=gocmd + "_race", race=True)
+    env = dict(GOENV, GORACE="halt_on_error=0 exitcode=66")
+    try:
+        rr = subprocess.run([rbin, "real", "-out", outd, "-n", str(real_n), "-seed", str(ctx.seed)], capture_output=True, text=True, env=env, timeout=900)
+    except subprocess.TimeoutExpired:
+        subprocess.run(["pkill", "-f", os.path.basename(rbin)[:-1] + "[" + os.path.basename(rbin)[-1] + "]"])
+        raise Inconclusive("real-concurrency run did not finish within 900 s")
+    if "DATA RACE" in rr.stderr:
+        rep = rr.stderr[rr.stderr.index("WARNING: DATA RACE"):][:3000]
+        ctx.violation("%s: the Go race detector reports a data race" % comp, {"component": comp + "Race", "report": rep, "note": "re-run the check"}, key="%s/race" % kp)
+    elif rr.returncode != 0:
+        raise Inconclusive("real-concurrency run failed: %s" % rr.stderr[-2000:])
+    if os.path.exists(os.path.join(outd, "real_stats.json")):
+        rs = read_json(os.path.join(outd, "real_stats.json"))
+        ctx.cov["engines"].append({"engine": "E4 real goroutines (-race)", "component": comp, "histories": rs["histories"], "events": rs["events"]})
+        judge(os.path.join(outd, "real_hist.ndjson"), comp + "_real", "real goroutines under the race detector", rs["histories"])
+    return ws
